@@ -37,7 +37,8 @@ def find_matching_recording_ids(tape_recorder, category, lookup_properties):
     """
     metadata = lookup_properties.metadata
     if lookup_properties.skip_incomplete:
-        metadata = metadata or {}
+        # Copy, not to leave the incomplete filter behind in the metadata filter given by the caller
+        metadata = dict(metadata or {})
         # We also add None to support recordings that were created before adding the INCOMPLETE_RECORDING metadata
         metadata[TapeRecorder.INCOMPLETE_RECORDING] = [False, None]
     recording_ids = tape_recorder.tape_cassette.iter_recording_ids(
